@@ -1,14 +1,251 @@
 import NibabelModel.Model.C06
 import NibabelModel.Lemmas.PySlice
+import NibabelModel.Lemmas.C06_Final
 /-! Props/C06 — property theorems for C06 (reading a slice from file bytes equals NumPy indexing).
-    Stage A (per axis), stage B (segments), stage C (whole) — see DESIGN.md §5 C06. -/
+    Stage A (per axis), stage B (segments), stage C (whole) — see DESIGN.md §5 C06.
+
+    Vocabulary (Lemmas/C06_Defs.lean): `ReadItem.selNat r n` = positions read along an axis exactly
+    as `slicers2segments` enumerates them; `applyPost p l` = Python semantics of applying a post item
+    to the list of read positions; `Item.WF n` / `Item.target n` = canonical item and its NumPy
+    selection; `Segment.addrs` = byte addresses of a segment; `readLists` = read positions per real
+    axis; `ReadItem.Canon` / `ReadCanon` (decidable) = read items as `optimize_read_slicers` produces
+    them; `ItemsWF` = canonical items aligned with a shape.
+
+    Every statement is unbounded in axis length, start/stop/step, shape, rank, stride, offsets, and
+    holds for an ARBITRARY heuristic function unless a hypothesis on the heuristic is spelled out. -/
 namespace Nb.C06
 open Nb
+
+/-! ## history of the defect (pinned, pre-fix logic) -/
 
 /-- The pinned (pre-fix) `fill_slicer` did not clamp: `[-7:]` on length 5 selected `[3,4]`,
     not all five elements. -/
 theorem fillSlicerOrig_counterexample :
     (fillSlicerOrig ⟨some (-7), none, none⟩ 5).toPy.sel 5 ≠ (⟨some (-7), none, none⟩ : PySlice).sel 5 := by
   decide
+
+/-- The pinned (pre-fix) `_positive_slice` turned the empty `slice(0, 1, -3)` into `slice(0, 1, 3)`,
+    which selects element 0. -/
+theorem positiveSliceOrig_counterexample :
+    (positiveSliceOrig (fillSlicer ⟨some 0, some 1, some (-3)⟩ 5)).toPy.sel 5
+      ≠ ((⟨some 0, some 1, some (-3)⟩ : PySlice).sel 5).reverse := by
+  decide
+
+/-! ## Stage A — one axis -/
+
+/-- **A1** the filled slicer, re-used as a Python slice (as `optimize_slicer` does when it post-slices
+    a fully read axis), selects exactly what the original slice selects. -/
+theorem fillSlicer_sel (s : PySlice) (n : Nat) (hv : s.Valid) :
+    (fillSlicer s n).toPy.sel n = s.sel n :=
+  fillSlicer_sel' s n hv
+
+example : (⟨some (-9), none, some 2⟩ : PySlice).Valid ∧
+    (fillSlicer ⟨some (-9), none, some 2⟩ 5).toPy.sel 5 = [0, 2, 4] := by decide
+
+/-- **A2a** `_full_slicer_len ∘ fill_slicer` is the NumPy length of the slice. -/
+theorem fullSlicerLen_fill (s : PySlice) (n : Nat) (hv : s.Valid) :
+    fullSlicerLen (fillSlicer s n) = (s.sel n).length :=
+  fullSlicerLen_fill' s n hv
+
+/-- **A2b** `slice2len` agrees with NumPy for every slice and every axis length. -/
+theorem slice2len_spec (s : PySlice) (n : Nat) (hv : s.Valid) :
+    slice2len s n = (s.sel n).length :=
+  slice2len_spec' s n hv
+
+example : (⟨some 7, some (-9), some (-3)⟩ : PySlice).Valid ∧
+    slice2len ⟨some 7, some (-9), some (-3)⟩ 6 = 2 := by decide
+
+/-- **A3** `_positive_slice ∘ fill_slicer` on a negative-step slice: positive step, an integer stop,
+    and the same index set in ascending order. -/
+theorem positiveSlice_sel (s : PySlice) (n : Nat) (hv : s.Valid) (hneg : s.stepVal < 0) :
+    0 < (positiveSlice (fillSlicer s n)).step ∧
+    (positiveSlice (fillSlicer s n)).stop.isSome ∧
+    (positiveSlice (fillSlicer s n)).toPy.sel n = (s.sel n).reverse :=
+  positiveSlice_sel' s n hv hneg
+
+example : (⟨none, some 1, some (-3)⟩ : PySlice).Valid ∧ (⟨none, some 1, some (-3)⟩ : PySlice).stepVal < 0 ∧
+    (positiveSlice (fillSlicer ⟨none, some 1, some (-3)⟩ 9)).toPy.sel 9 = [2, 5, 8] := by decide
+
+/-- **A4** soundness of `optimize_slicer` for EVERY heuristic, every `all_full`, `is_slowest`,
+    `stride`: the positions read are strictly ascending, inside the axis, and applying the post
+    item to them (Python semantics) gives exactly the NumPy selection of the original item. -/
+theorem optimizeSlicer_sound (h : Heuristic) (it : Item) (n : Nat) (hwf : it.WF n)
+    (allFull slowest : Bool) (stride : Nat) (r : ReadItem) (p : PostItem)
+    (hok : optimizeSlicer h it n allFull slowest stride = .ok (r, p)) :
+    (r.selNat n).Pairwise (· < ·) ∧ (∀ i ∈ r.selNat n, i < n) ∧
+    applyPost p (r.selNat n) = some (it.target n) :=
+  let hs := optimizeSlicer_axisSound h it n hwf allFull slowest stride r p hok
+  ⟨hs.asc, hs.lt, hs.post⟩
+
+example : (Item.slice ⟨some 8, none, some (-3)⟩).WF 10 ∧
+    optimizeSlicer (fun _ _ _ => .contiguous) (.slice ⟨some 8, none, some (-3)⟩) 10 true false 4
+      = .ok (.slice 2 9 1, .slice ⟨none, none, some (-3)⟩) ∧
+    (ReadItem.slice 2 9 1).selNat 10 = [2, 3, 4, 5, 6, 7, 8] ∧
+    applyPost (.slice ⟨none, none, some (-3)⟩) [2, 3, 4, 5, 6, 7, 8] = some (.many [8, 5, 2]) := by
+  decide
+
+/-- **A4 (structure)** the read item is canonical (int in range / positive-step slice with bounds in
+    `[0, n]`), the post slice is a legal Python slice, and the axis is dropped exactly when an int
+    is read. -/
+theorem optimizeSlicer_canon (h : Heuristic) (it : Item) (n : Nat) (hwf : it.WF n)
+    (allFull slowest : Bool) (stride : Nat) (r : ReadItem) (p : PostItem)
+    (hok : optimizeSlicer h it n allFull slowest stride = .ok (r, p)) :
+    r.Canon n ∧ p.Valid ∧ (p = .dropped ↔ r.isInt = true) :=
+  let hs := optimizeSlicer_axisSound h it n hwf allFull slowest stride r p hok
+  ⟨hs.canon, hs.pvalid, hs.dropped_iff⟩
+
+example : (Item.int 3).WF 5 ∧
+    optimizeSlicer (thresholdHeuristic 0) (.int 3) 5 true false 4 = .ok (.int 3, .dropped) := by decide
+
+/-- **A4 (errors)** `optimize_slicer` raises ONLY for an int item when everything so far is full and
+    the heuristic answers `contiguous` ("int index cannot be contiguous"). -/
+theorem optimizeSlicer_error_iff (h : Heuristic) (it : Item) (n : Nat) (allFull slowest : Bool)
+    (stride : Nat) (e : Err) :
+    optimizeSlicer h it n allFull slowest stride = .error e ↔
+      e = .value ∧ ∃ i0, it = .int i0 ∧ allFull = true ∧
+        h (.int (if i0 < 0 then (n : Int) + i0 else i0)) n stride = .contiguous :=
+  optimizeSlicer_error_iff' h it n allFull slowest stride e
+
+/-- `threshold_heuristic` never answers `contiguous` for an int, for any threshold. -/
+theorem thresholdHeuristic_int_not_contiguous (k : Nat) (i : Int) (n stride : Nat) :
+    thresholdHeuristic k (.int i) n stride ≠ .contiguous :=
+  thresholdHeuristic_int k i n stride
+
+/-- **A4 (full reads, int)** an int item makes the whole axis be read iff everything so far is full,
+    the axis is not the slowest and the heuristic answers `full`. -/
+theorem optimizeSlicer_int_full_iff (h : Heuristic) (i : Int) (n : Nat) (allFull slowest : Bool)
+    (stride : Nat) (r : ReadItem) (p : PostItem) (hi : 0 ≤ i)
+    (hok : optimizeSlicer h (.int i) n allFull slowest stride = .ok (r, p)) :
+    r = .full ↔ (allFull = true ∧ slowest = false ∧ h (.int i) n stride = .full) :=
+  optimizeSlicer_int_full_iff_aux h i n allFull slowest stride r p hi hok
+
+example : (0 : Int) ≤ 1 ∧
+    optimizeSlicer (fun _ _ _ => .full) (.int 1) 4 true false 8 = .ok (.full, .int 1) := by decide
+
+/-- **A4 (full reads, slice)** a slice item makes the whole axis be read iff it already is the full
+    axis (either direction), or everything so far is full, the axis is not the slowest and the
+    heuristic answers `full`; and whenever the read item is `.full` it reads positions `0 … n-1`. -/
+theorem optimizeSlicer_slice_full_iff (h : Heuristic) (s : PySlice) (n : Nat) (allFull slowest : Bool)
+    (stride : Nat) (r : ReadItem) (p : PostItem)
+    (hok : optimizeSlicer h (.slice s) n allFull slowest stride = .ok (r, p)) :
+    (r = .full ↔ (s = pySliceNone ∨ fillSlicer s n = ⟨0, some (n : Int), 1⟩ ∨
+        fillSlicer s n = ⟨(n : Int) - 1, none, -1⟩ ∨
+        (allFull = true ∧ slowest = false ∧ h (.slice (fillSlicer s n)) n stride = .full))) ∧
+    (r = .full → r.selNat n = List.range n) :=
+  ⟨optimizeSlicer_slice_full_iff_aux h s n allFull slowest stride r p hok,
+   fun hr => by rw [hr]; exact selNat_full n⟩
+
+example : optimizeSlicer (fun _ _ _ => .full) (.slice ⟨some 1, none, some 2⟩) 6 true false 8
+    = .ok (.full, .slice ⟨some 1, some 6, some 2⟩) := by decide
+
+/-! ## Stage B — segments -/
+
+/-- the read items `optimize_read_slicers` returns are canonical and aligned with the shape, for
+    EVERY heuristic (so the side condition of the segment theorems is always met in `fileslice`). -/
+theorem optimizeLoop_canon (h : Heuristic) (items : List Item) (shape : List Nat) (stride : Nat)
+    (allFull : Bool) (rs : List ReadItem) (ps : List PostItem) (hwf : ItemsWF items shape)
+    (hok : optimizeLoop h items shape stride allFull = .ok (rs, ps)) : ReadCanon rs shape :=
+  optimizeLoop_readCanon h items shape stride allFull rs ps hwf hok
+
+example : ItemsWF [.slice ⟨some 1, none, some 2⟩, .newaxis, .int 2] [5, 3] ∧
+    optimizeLoop (thresholdHeuristic 4) [.slice ⟨some 1, none, some 2⟩, .newaxis, .int 2] [5, 3] 2 true
+      = .ok ([.full, .newaxis, .int 2], [.slice ⟨some 1, some 5, some 2⟩, .slice pySliceNone]) := by
+  decide
+
+/-- **B1** the bytes read by `slicers2segments`, in order, are exactly the F-order enumeration of the
+    sub-array selected by the read items — any rank, zero-length axes included, any offset and item
+    size. -/
+theorem segments_cover (rs : List ReadItem) (shape : List Nat) (off isz : Nat)
+    (hc : ReadCanon rs shape) :
+    (slicers2segments rs shape off isz).flatMap Segment.addrs
+      = (gatherF (readLists rs shape) shape).flatMap
+          (fun (q : Nat) => rangeInts ((off : Int) + (isz : Int) * (q : Int)) 1 isz) :=
+  segments_cover' rs shape off isz hc
+
+example : ReadCanon [.full, .slice 1 4 2, .newaxis, .int 1] [2, 4, 3] ∧
+    slicers2segments [.full, .slice 1 4 2, .newaxis, .int 1] [2, 4, 3] 10 2 = [⟨30, 4⟩, ⟨38, 4⟩] ∧
+    gatherF (readLists [.full, .slice 1 4 2, .newaxis, .int 1] [2, 4, 3]) [2, 4, 3] = [10, 11, 14, 15] := by
+  decide
+
+/-- **B2** every non-empty segment lies inside the array extent `[off, off + isz·∏shape)`, and the
+    total number of bytes read is `isz · ∏ read_shape`. -/
+theorem segments_in_extent (rs : List ReadItem) (shape : List Nat) (off isz : Nat)
+    (hc : ReadCanon rs shape) :
+    (∀ s ∈ slicers2segments rs shape off isz, s.length ≠ 0 →
+      (off : Int) ≤ s.offset ∧ s.offset + s.length ≤ (off : Int) + (isz : Int) * (shape.prod : Nat)) ∧
+    ((slicers2segments rs shape off isz).map (·.length)).sum = isz * (readShape rs shape).prod :=
+  ⟨segments_in_extent' rs shape off isz hc, segments_total_length' rs shape off isz hc⟩
+
+example : ReadCanon [.slice 0 3 2, .full] [3, 2] ∧
+    slicers2segments [.slice 0 3 2, .full] [3, 2] 7 4 = [⟨7, 4⟩, ⟨15, 4⟩, ⟨19, 4⟩, ⟨27, 4⟩] ∧
+    readShape [.slice 0 3 2, .full] [3, 2] = [2, 2] := by decide
+
+/-! ## Stage C — the whole `fileslice` -/
+
+/-- **C** `fileslice` equals NumPy basic indexing: for every heuristic that never answers
+    `contiguous` for an int (otherwise `optimize_slicer` raises, see `optimizeSlicer_error_iff`),
+    every shape, every index tuple whose slices have non-zero step (ints, slices, `...`, `None`, in
+    any number), both memory orders, every item size ≥ 1, offset, and every file long enough to
+    hold the array.  The equation includes the error cases: too many indices, two ellipses and an
+    out-of-range integer give the same error on both sides. -/
+theorem fileslice_eq_numpy (h : Heuristic) (hh : ∀ i n st, h (.int i) n st ≠ .contiguous)
+    (idx : List IdxItem) (shape : List Nat) (hv : ∀ s, IdxItem.slice s ∈ idx → s.Valid)
+    (o : Order) (isz off flen : Nat) (hisz : 0 < isz) (hlen : off + isz * shape.prod ≤ flen) :
+    fileslice h idx shape isz off flen o
+      = (npIndex idx shape o).map (fun (sh, l) => (sh, l.map Int.ofNat)) :=
+  fileslice_eq_numpy' h hh idx shape hv o isz off flen hisz hlen
+
+example : (∀ i n st, thresholdHeuristic 8 (.int i) n st ≠ .contiguous) ∧
+    (∀ s, IdxItem.slice s ∈ [IdxItem.slice ⟨none, none, some (-2)⟩, .newaxis, .int (-1)] → s.Valid) ∧
+    (0 < 2 ∧ 3 + 2 * [5, 3].prod ≤ 40) ∧
+    fileslice (thresholdHeuristic 8) [.slice ⟨none, none, some (-2)⟩, .newaxis, .int (-1)] [5, 3] 2 3 40 .C
+      = .ok ([3, 1], [14, 8, 2]) ∧
+    npIndex [.slice ⟨none, none, some (-2)⟩, .newaxis, .int (-1)] [5, 3] .C = .ok ([3, 1], [14, 8, 2]) := by
+  refine ⟨thresholdHeuristic_int_not_contiguous 8, ?_, by decide, by decide, by decide⟩
+  intro s hs
+  simp only [List.mem_cons, IdxItem.slice.injEq, reduceCtorEq, List.not_mem_nil, or_false] at hs
+  subst hs; decide
+
+/-- the shipped default: `fileslice` with `threshold_heuristic` (any `skip_thresh`) equals NumPy. -/
+theorem fileslice_threshold_eq_numpy (k : Nat)
+    (idx : List IdxItem) (shape : List Nat) (hv : ∀ s, IdxItem.slice s ∈ idx → s.Valid)
+    (o : Order) (isz off flen : Nat) (hisz : 0 < isz) (hlen : off + isz * shape.prod ≤ flen) :
+    fileslice (thresholdHeuristic k) idx shape isz off flen o
+      = (npIndex idx shape o).map (fun (sh, l) => (sh, l.map Int.ofNat)) :=
+  fileslice_eq_numpy' _ (thresholdHeuristic_int_not_contiguous k) idx shape hv o isz off flen hisz hlen
+
+example : fileslice (thresholdHeuristic 0) [.ellipsis, .slice ⟨some 1, none, none⟩] [2, 3] 1 0 6 .F
+    = .ok ([2, 2], [2, 3, 4, 5]) := by decide
+
+/-- **C (reads)** for EVERY heuristic: all bytes `calc_slicedefs` asks for lie inside the array
+    extent, and their number is `isz · ∏ read_shape`. -/
+theorem reads_within_extent (h : Heuristic) (idx : List IdxItem) (shape : List Nat)
+    (hv : ∀ s, IdxItem.slice s ∈ idx → s.Valid) (o : Order) (isz off : Nat) (d : SliceDefs)
+    (hok : calcSlicedefs h idx shape isz off o = .ok d) :
+    (∀ s ∈ d.segments, s.length ≠ 0 →
+      (off : Int) ≤ s.offset ∧ s.offset + s.length ≤ (off : Int) + (isz : Int) * (shape.prod : Nat)) ∧
+    (d.segments.map (·.length)).sum = isz * d.readShape.prod :=
+  calcSlicedefs_in_extent' h idx shape hv o isz off d hok
+
+example : ∃ d, calcSlicedefs (fun _ _ _ => .skip) [.slice ⟨some (-9), none, some 2⟩, .int 1] [3, 2] 4 16 .F
+    = .ok d ∧ d.segments = [⟨28, 4⟩, ⟨36, 4⟩] := ⟨_, rfl, by decide⟩
+
+/-- **C (errors)** an integer index outside `[-n, n)` of its axis makes both `fileslice` and the
+    NumPy specification fail with the index error (items before it being ints/slices). -/
+theorem fileslice_int_out_of_range (h : Heuristic) (pre : List IdxItem) (i : Int) (post : List IdxItem)
+    (shape : List Nat) (o : Order) (isz off flen : Nat)
+    (hpre : ∀ x ∈ pre, x ≠ .newaxis ∧ x ≠ .ellipsis) (hlt : pre.length < shape.length)
+    (hout : ¬ (-(shape.getD pre.length 0 : Int) ≤ i ∧ i < (shape.getD pre.length 0 : Int))) :
+    fileslice h (pre ++ .int i :: post) shape isz off flen o = .error .index ∧
+    npIndex (pre ++ .int i :: post) shape o = .error .index :=
+  fileslice_int_out_of_range' h pre i post shape o isz off flen hpre hlt hout
+
+example : (∀ x ∈ [IdxItem.int 0], x ≠ .newaxis ∧ x ≠ .ellipsis) ∧ [IdxItem.int 0].length < [4, 3].length ∧
+    ¬ (-(([4, 3] : List Nat).getD [IdxItem.int 0].length 0 : Int) ≤ -4 ∧
+        (-4 : Int) < (([4, 3] : List Nat).getD [IdxItem.int 0].length 0 : Int)) := by
+  refine ⟨?_, by decide, by decide⟩
+  intro x hx
+  simp only [List.mem_singleton] at hx
+  subst hx; exact ⟨by simp, by simp⟩
 
 end Nb.C06
